@@ -731,6 +731,35 @@ def expectedGuards : List (String × List String) := [
     "chain d.addCallback(_connected)",
     "return d"])]
 
+/-- the status side channel of hint handling as the translator sees it (tie: `Props.C20.status_side_channel_agrees`):
+    where `DilationStatus.hints` gets a value, who assigns `_latest_status`, who calls `_hint_status`, what
+    `Connector._use_hints` does with `hint_status`, and the bodies of the two helpers.  `GDil.hintStatus` /
+    `GDil.useHints` were written against exactly this. -/
+def expectedStatusSites : List (String × String) := [
+  ("_status.DilationStatus.hints (default)", "Factory(set)"),
+  ("manager.Manager._hint_status", "set(hints).union(self._latest_status.hints)")]
+
+def expectedLatestStatusAssignments : List (String × String) := [
+  ("manager.Manager.__attrs_post_init__", "DilationStatus(mailbox=self._initial_mailbox_status or WormholeStatus(), generation=0)"),
+  ("manager.Manager._maybe_send_status", "status_msg")]
+
+def expectedHintStatusCallers : List (String × String) := [
+  ("connector.Connector._use_hints", "self._manager._hint_status(hint_status)")]
+
+def expectedUseHintsStatusStatements : List String := [
+  "hint_status = []",
+  "hint_status.append(DilationHint(f'{h.hostname}:{h.port}', True))",
+  "hint_status.append(DilationHint(f'{h.hostname}:{h.port}', False))",
+  "self._manager._hint_status(hint_status)"]
+
+def expectedStatusSkeleton : List (String × List String) := [
+  ("Manager._hint_status(self, hints)", [
+    "self._maybe_send_status(evolve(self._latest_status, hints=set(hints).union(self._latest_status.hints)))"]),
+  ("Manager._maybe_send_status(self, status_msg)", [
+    "self._latest_status = status_msg",
+    "if self._status is not None",
+    "  self._status(status_msg)"])]
+
 /-! ## line protocol
 
 ```
@@ -749,6 +778,11 @@ dnew <tor> <nolisten> <ownrelay> <manager state> <connector state> -> sched=[…
 dmsg <J>                          -> [Error ]<manager state> <connector state> sched=[…new…]
 ddial                             -> dial=[…]                           (scheduled entries that have an endpoint)
 ddialU                            -> targets={…}
+gnew <tor> <nolisten> <ownrelay> <status callback empties the set> -> <gres>   (a Manager that has sent its PLEASE: WANTING)
+gplease <L|F> | ghints <J> | greconnect | greconnecting | gmade | glost | gstop | gtick
+                                  -> <Error> | <gres>
+<gres> = <manager state> <connector state|-> g<connectors made> sched=[<k>:<sched>,…] dial=[<k>:<target>,…] noep=<n> st={<hex url>:<D|R>,…}
+         (sched/dial/noep: what this op added, <k> = number of the Connector; st: `_latest_status.hints`)
 ```
 -/
 
@@ -883,13 +917,221 @@ def showScheds (l : List Sched) : String := "sched=[" ++ ",".intercalate (l.map 
 def dialled (l : List Sched) : List Sched :=
   (l.filter (fun s => s.ep && s.delay == 0)) ++ (l.filter (fun s => s.ep && s.delay != 0))
 
+/-! ## generations: hints in every reachable Manager state
+
+`Manager` makes one `Connector` per generation (`_start_connecting`), abandons it when the Leader asks for a
+new generation while it is still connecting (`stop_connecting`), and keeps reporting the hints in use through
+`_hint_status` → `_maybe_send_status` (`DilationStatus.hints`, a `set` of `DilationHint(url, is_direct)`).
+Everything the Manager does is read from the *generated* tables; only the outputs that touch hint state have a
+semantics here, the others (`send_*`, `notify_stopped`, `abandon_connection`, the status outputs that set
+`peer_connection`/`generation`) leave it alone — pinned by `Gen.HintGuards.statusHintSites`: the only expression that
+ever becomes `DilationStatus.hints` after the default `Factory(set)` is the one in `_hint_status`. -/
+
+inductive Role where
+  | leader
+  | follower
+  deriving DecidableEq, Repr
+
+/-- `f"{x}"` for the values that reach it: a `str` is itself, a non-bool `int` its decimal digits.  Python formats every
+    other value without raising as well; no scheduled hint holds one (`parseTcp_spec`), the model prints its token. -/
+def pyFormat : J → String
+  | .str s => s
+  | .int n => toString n
+  | j => showJ j
+
+/-- `DilationHint(f"{h.hostname}:{h.port}", is_direct)` -/
+abbrev StatusHint := String × Bool
+
+def statusOf (s : Sched) : StatusHint := (pyFormat s.host ++ ":" ++ pyFormat s.port, !s.relay)
+
+/-- `set(hints).union(latest)` (attrs-frozen `DilationHint`s compare by value) -/
+def setUnion (hints latest : List StatusHint) : List StatusHint :=
+  (hints ++ latest).foldl (fun acc x => if acc.contains x then acc else acc ++ [x]) []
+
+structure GDil where
+  mgr : Manager.State
+  role : Option Role              -- `_my_role`
+  con : Option Connector.State    -- the machine of `self._connector`; `none`: no Connector has been made yet
+  gen : Nat                       -- Connectors made so far; `self._connector` is number `gen - 1`
+  tor : Bool
+  noListen : Bool
+  own : Bool                      -- a transit relay is configured (`_transit_relays` of every Connector)
+  sched : List (Nat × Sched)      -- every `_schedule_connection` call: (number of the Connector, the call)
+  pending : List (Nat × Sched)    -- their `deferLater` timers that have neither fired nor been cancelled
+  dials : List (Nat × Sched)      -- `Connector._connect(ep, …)` calls of fired timers that had an endpoint
+  noep : Nat                      -- fired timers whose `ep` was `None` (`None.connect`: AttributeError into `log.err`)
+  status : List StatusHint        -- `_latest_status.hints`
+  cbClears : Bool                 -- environment: the application's status callback empties the `hints` set it is handed
+                                  -- (`_maybe_send_status` hands out the very object it keeps in `_latest_status`)
+
+/-- `Manager._hint_status(hints)`: `evolve(self._latest_status, hints=set(hints).union(self._latest_status.hints))`;
+    `_maybe_send_status` stores it and hands it to the application's callback, if any -/
+def GDil.hintStatus (d : GDil) (hints : List StatusHint) : GDil :=
+  { d with status := if d.cbClears then [] else setUnion hints d.status }
+
+/-- `Connector._use_hints(hints)` on Connector number `k`: the `_schedule_connection` calls (each starts a timer),
+    then `self._manager._hint_status(hint_status)` as the last statement -/
+def GDil.useHints (d : GDil) (k : Nat) (hints : List HintObj) : Except Err GDil := do
+  let ss ← connectorUseHints d.tor d.noListen hints
+  pure (GDil.hintStatus { d with sched := d.sched ++ ss.map (fun s => (k, s)), pending := d.pending ++ ss.map (fun s => (k, s)) }
+    (ss.map statusOf))
+
+/-- `stop_pending_connectors()` of Connector `k`: `d.cancel()` on each of its Deferreds; a timer that has not fired never will -/
+def GDil.cancelPending (d : GDil) (k : Nat) : GDil :=
+  { d with pending := d.pending.filter (fun p => p.1 != k) }
+
+/-- `self._connector.got_hints(hint_objs)` through the generated Connector table -/
+def GDil.gotHints (d : GDil) (hints : List HintObj) : Except Err GDil :=
+  match d.con with
+  | none => .error .attributeError                    -- `self._connector`: no such attribute yet
+  | some c =>
+    match Connector.table c .got_hints with
+    | none => .error .noTransition
+    | some (c', outs) =>
+      if outs.contains .use_hints then GDil.useHints { d with con := some c' } (d.gen - 1) hints
+      else .ok { d with con := some c' }
+
+/-- `self._connector.stop()` through the generated Connector table -/
+def GDil.connectorStop (d : GDil) : Except Err GDil :=
+  match d.con with
+  | none => .error .attributeError
+  | some c =>
+    match Connector.table c .k_stop with
+    | none => .error .noTransition
+    | some (c', outs) =>
+      if outs.contains .stop_everything then .ok (GDil.cancelPending { d with con := some c' } (d.gen - 1))
+      else .ok { d with con := some c' }
+
+/-- `_start_connecting()`: a fresh `Connector` and its `start()` — with a relay configured that is already a use of
+    hints (`self._use_hints(self._transit_relays)`), and so a `_hint_status` call -/
+def GDil.startConnecting (d : GDil) : Except Err GDil :=
+  let d' := { d with con := some Connector.init, gen := d.gen + 1 }
+  if d.own then d'.useHints d.gen [.relay ownRelay] else .ok d'
+
+/-- one Manager output.  `msg`: the argument of `rx_HINTS`; `role`: what `choose_role` derives from the PLEASE -/
+def GDil.output (d : GDil) (msg : J) (role : Option Role) : Manager.Output → Except Err GDil
+  | .choose_role =>
+    match role with
+    | some r => .ok { d with role := some r }
+    | none => .error .keyError                         -- `message["side"]`
+  | .start_connecting => d.startConnecting
+  | .start_connecting_ignore_message => d.startConnecting
+  | .stop_connecting => d.connectorStop
+  | .use_hints => do
+    let hs ← managerUseHints msg
+    d.gotHints hs
+  | _ => .ok d
+
+/-- Automat runs the outputs of a row in order; the first one that raises ends the call -/
+def GDil.outputs (d : GDil) (msg : J) (role : Option Role) : List Manager.Output → Except Err GDil
+  | [] => .ok d
+  | o :: os => do
+    let d' ← d.output msg role o
+    d'.outputs msg role os
+
+/-- one Manager input: no row = `NoTransition` (state untouched), else the new state is set first -/
+def GDil.input (d : GDil) (i : Manager.Input) (msg : J) (role : Option Role) : Except Err GDil :=
+  match Manager.table d.mgr i with
+  | none => .error .noTransition
+  | some (m', outs) => GDil.outputs { d with mgr := m' } msg role outs
+
+/-- the timers in `ps` fire: `Connector._connect(ep, …)` -/
+def GDil.fire (d : GDil) (ps : List (Nat × Sched)) : GDil :=
+  { d with dials := d.dials ++ ps.filter (fun (p : Nat × Sched) => p.2.ep),
+           noep := d.noep + (ps.filter (fun (p : Nat × Sched) => !p.2.ep)).length }
+
+/-- a timer started with delay 0 since the last `tick` is due at once -/
+def dueNow (p : Nat × Sched) : Bool := p.2.delay == 0
+
+/-- `reactor.advance(0)`: the timers with delay 0 fire (those with `RELAY_DELAY` are not due yet) -/
+def GDil.fireDue (d : GDil) : GDil :=
+  GDil.fire { d with pending := d.pending.filter (fun p => !dueNow p) } (d.pending.filter dueNow)
+
+/-- time passes (more than `RELAY_DELAY`): every pending timer fires, in the order of its due time -/
+def GDil.tick (d : GDil) : GDil :=
+  GDil.fire { d with pending := [] } (d.pending.filter dueNow ++ d.pending.filter (fun p => !dueNow p))
+
+/-- an attempt of the current Connector completes its handshake: `add_candidate(c)` → `consider` queues
+    `accept(c)` on the eventual queue; the reactor turn first fires the timers that are due, then `accept` runs
+    `select_and_stop_remaining` (`stop_pending_connectors()`, `manager.connector_connection_made(c)`) -/
+def GDil.made (d : GDil) : Except Err GDil :=
+  match d.con with
+  | none => .error .attributeError
+  | some c =>
+    match Connector.table c .add_candidate with
+    | none => .error .noTransition
+    | some (c1, outs1) =>
+      let d1 := GDil.fireDue { d with con := some c1 }
+      if !outs1.contains .consider then .ok d1 else
+      match Connector.table c1 .accept with
+      | none => .error .noTransition
+      | some (c2, outs2) =>
+        let d2 := { d1 with con := some c2 }
+        if !outs2.contains .select_and_stop_remaining then .ok d2 else
+        (d2.cancelPending (d2.gen - 1)).input .connection_made .null none
+
+/-- `connector_connection_lost()`: `connection_lost_leader()` if `self._my_role is LEADER`, else `connection_lost_follower()` -/
+def GDil.lost (d : GDil) : Except Err GDil :=
+  d.input (if d.role = some .leader then .connection_lost_leader else .connection_lost_follower) .null none
+
+/-- what happens to a Manager that has sent its PLEASE -/
+inductive GOp where
+  | please (r : Role)          -- the peer's PLEASE (its `side` makes us Leader or Follower)
+  | hints (msg : J)            -- a `connection-hints` message
+  | reconnect                  -- `reconnect` (sent by a Leader)
+  | reconnecting               -- `reconnecting` (sent by a Follower)
+  | made                       -- an attempt of the current Connector wins
+  | lost                       -- the selected connection is lost
+  | stop                       -- `Manager.stop()`
+  | tick                       -- time passes
+
+def GDil.step (d : GDil) : GOp → Except Err GDil
+  | .please r => d.input .rx_PLEASE .null (some r)
+  | .hints msg => d.input .rx_HINTS msg none
+  | .reconnect => d.input .rx_RECONNECT .null none
+  | .reconnecting => d.input .rx_RECONNECTING .null none
+  | .made => d.made
+  | .lost => d.lost
+  | .stop => d.input .k_stop .null none
+  | .tick => .ok d.tick
+
+/-- a Manager just made -/
+def GDil.blank (tor noListen own cbClears : Bool) : GDil :=
+  { mgr := Manager.init, role := none, con := none, gen := 0, tor := tor, noListen := noListen, own := own,
+    sched := [], pending := [], dials := [], noep := 0, status := [], cbClears := cbClears }
+
+/-- `Manager(...)`, `got_dilation_key`, `got_wormhole_versions` → `start()`: the row `WAITING --start-->` of the table -/
+def GDil.init (tor noListen own cbClears : Bool) : Except Err GDil :=
+  (GDil.blank tor noListen own cbClears).input .start .null none
+
+def showGSched (p : Nat × Sched) : String := s!"{p.1}:" ++ showSched p.2
+
+def showStatus (l : List StatusHint) : String :=
+  showSet (l.map fun h => hexOfStr h.1 ++ (if h.2 then ":D" else ":R"))
+
+/-- result line of a generation op: states, number of Connectors, what the op newly scheduled / dialled, and the status -/
+def showGDil (old d : GDil) : String :=
+  s!"{Manager.State.name d.mgr} " ++ (match d.con with | some c => Connector.State.name c | none => "-") ++ s!" g{d.gen} sched=[" ++
+    ",".intercalate ((d.sched.drop old.sched.length).map showGSched) ++ "] dial=[" ++
+    ",".intercalate ((d.dials.drop old.dials.length).map fun p => s!"{p.1}:" ++ showTarget p.2.host p.2.port) ++
+    s!"] noep={d.noep - old.noep} st=" ++ showStatus d.status
+
 structure DrvSt where
   t : Transit
   d : Dil
+  g : GDil
+
+def gdilBlank : GDil := GDil.blank false false false false
 
 def drvInit : DrvSt :=
   { t := Transit.init false false false,
-    d := { mgr := Manager.init, con := Connector.init, tor := false, noListen := false, sched := [] } }
+    d := { mgr := Manager.init, con := Connector.init, tor := false, noListen := false, sched := [] },
+    g := gdilBlank }
+
+def gop (s : DrvSt) (op : GOp) : DrvSt × String :=
+  match s.g.step op with
+  | .ok g' => ({ s with g := g' }, showGDil s.g g')
+  | .error e => (s, e.name)
 
 def flag (s : String) : Bool := s == "1"
 
@@ -963,6 +1205,22 @@ def step (s : DrvSt) (line : String) : DrvSt × String :=
       | .error e => (s, e.name)
   | ["ddial"] => (s, "dial=[" ++ ",".intercalate ((dialled s.d.sched).map fun x => s!"{x.delay}:{showTarget x.host x.port}") ++ "]")
   | ["ddialU"] => (s, "targets=" ++ showSet ((dialled s.d.sched).map fun x => showTarget x.host x.port))
+  | ["gnew", tor, nolisten, own, cb] =>
+    match GDil.init (flag tor) (flag nolisten) (flag own) (flag cb) with
+    | .ok g => ({ s with g := g }, showGDil gdilBlank g)
+    | .error e => (s, e.name)
+  | ["gplease", r] =>
+    if r == "L" then gop s (.please .leader) else if r == "F" then gop s (.please .follower) else (s, "bad-op")
+  | "ghints" :: ts =>
+    match readJ ts [] with
+    | none => (s, "bad-op")
+    | some j => gop s (.hints j)
+  | ["greconnect"] => gop s .reconnect
+  | ["greconnecting"] => gop s .reconnecting
+  | ["gmade"] => gop s .made
+  | ["glost"] => gop s .lost
+  | ["gstop"] => gop s .stop
+  | ["gtick"] => gop s .tick
   | _ => (s, "bad-op")
 
 def driver (lines : List String) : List String := runLines step drvInit lines
